@@ -64,6 +64,17 @@ Example function_shadows_variable_refuted :
     names_of syms = ["Y"; "X"] /\ program_of_script script = None.
 Proof. exists "Y = exp + exp(X)". eexists. split; [vm_compute; reflexivity|]. cbn [In]. repeat split; auto. Qed.
 
+(* NEW: a series whose name begins with an underscore: the class-body access self.__x is name-mangled by CPython to
+   self._Model__x, which does not exist — the model builds, the text is what the rule says, the evaluation raises
+   AttributeError.  Such names have no row (mangled), so the statement is outside the subset *)
+Example underscore_name_mangled_refuted :
+  exists script syms, parse_model_nocheck script = POk syms /\
+    In (mkSymbol (Some "Y") TEndogenous (Some (IInt 0%Z)) (Some (IInt 0%Z)) (Some "Y[t] = _x[t] + 1")
+                 (Some "self._Y[t] = self.__x[t] + 1")) syms /\
+    names_of syms = ["Y"; "_x"] /\ mangled "_x" = true /\ mangled "_" = false /\ mangled "__x__" = false /\
+    program_of_script script = None.
+Proof. exists "Y = _x + 1". eexists. split; [vm_compute; reflexivity|]. cbn [In]. repeat split; auto. Qed.
+
 (* a match of the whole statement that spans the first `=`: the two sides are lexed separately, the template is not,
    and terms and placeholders no longer correspond (this is why parse_equation_code_spec needs `aligned`) *)
 Example match_spanning_equals_refuted :
